@@ -320,7 +320,7 @@ impl<const N: usize> Live<N> {
         (txt, h)
     }
 
-    fn drain_store_oracle(&self, c: &mut Case) {
+    pub fn drain_store_oracle(&self, c: &mut Case) {
         STORE.with(|s| {
             if let Some(ctx) = s.borrow_mut().as_mut() {
                 for o in ctx.oracle.drain(..) {
@@ -333,7 +333,7 @@ impl<const N: usize> Live<N> {
         }
     }
 
-    fn new_buf(&mut self, len: usize, fill: u8) -> usize {
+    pub fn new_buf(&mut self, len: usize, fill: u8) -> usize {
         let id = self.bufs.len();
         let v = vec![fill; len];
         self.bufs.push(v);
@@ -1218,6 +1218,12 @@ fn c04_relevant(f: &str) -> bool {
 pub fn run(ctx: &Ctx, prop: &str) -> (Vec<Case>, String, bool, BTreeMap<String, String>) {
     let mut cases = run_structured(ctx, prop, 1500, 20000);
     let mut rule = RULE.to_string();
+    if matches!(prop, "C01" | "C03" | "C04") {
+        // blocking requests whose wait is ended by an earlier chain's completion (WrongToken): the
+        // chain they published stays with the device
+        cases.extend(filter_for(prop, crate::c05_notify::foreign_first_cases(ctx, prop)));
+        rule.push_str("; blocking requests (add_notify_wait_pop) on a queue with an earlier chain outstanding whose completion the device reports first: WrongToken, own chain still published, shared and counted, history continues to full return");
+    }
     if prop == "C04" {
         // driver level: every driver's traffic runs over the same recording platform; its share/unshare
         // ledger (exactly once, same range, same direction, returned address) is C04 for the buffers
